@@ -35,6 +35,18 @@ let run_case (t : string list) : string =
     (match filter_model (fmethod_of_int (int_of_string m)) (nat_of_int (int_of_string bpp)) (unhex prev) (unhex cur) with
      | None -> "unmodelled"
      | Some (rf, out) -> Printf.sprintf "%d %s" (int_of_z (ftype_to_Z rf)) (hex out))
+  | ["a7rows"; w; h] ->
+    let rows = rows_model (zs w) (zs h) in
+    if rows = [] then "-" else
+      String.concat "," (List.map (fun ((p, l), lw) -> Printf.sprintf "%d:%d:%d" (int_of_z p) (int_of_z l) (int_of_z lw)) rows)
+  | ["a7dims"; w; h; p] ->
+    (match pass_dims (zs w) (zs h) (zs p) with
+     | Some (lw, ln) -> Printf.sprintf "%d %d" (int_of_z lw) (int_of_z ln)
+     | None -> "PANIC unreachable")
+  | ["expand"; dest; stride; p; line; width; bits; row] ->
+    (match expand_pass_exec (unhex dest) (zs stride) (zs p) (zs line) (zs width) (zs bits) (unhex row) with
+     | Some d -> hex d
+     | None -> "PANIC invalid pass")
   | _ -> "unknown-case"
 
 let () =
